@@ -18,10 +18,12 @@ GEN_REPLY = os.path.join(core.LEAN, "RedisGoModel", "Generated", "ReplySites.lea
 REPLY_PROP = os.path.join(core.LEAN, "RedisGoModel", "Props", "C03Sites.lean")
 GEN_SITES = os.path.join(core.LEAN, "RedisGoModel", "Generated", "Sites.lean")
 SITES_PROP = os.path.join(core.LEAN, "RedisGoModel", "Props", "C04Sites.lean")
+GEN_ALIAS = os.path.join(core.LEAN, "RedisGoModel", "Generated", "AliasSites.lean")
+ALIAS_PROP = os.path.join(core.LEAN, "RedisGoModel", "Props", "C01Alias.lean")
 GEN_ARM = os.path.join(core.LEAN, "RedisGoModel", "Generated", "ReadyArm.lean")
 EXPECT = os.path.join(core.VERIF, "expectations", "facts.json")
 # which properties lean on which fact
-USERS = {"F1": ["C04"], "F3": ["C04"], "F6": ["C03"], "F2": ["C05", "C06", "C13"], "F4": ["C08"], "F5": ["C15"]}
+USERS = {"F1": ["C04"], "F3": ["C04"], "F6": ["C03"], "F7": ["C01", "C10", "C03"], "F2": ["C05", "C06", "C13"], "F4": ["C08"], "F5": ["C15"]}
 _cache = {}
 
 
@@ -248,6 +250,83 @@ def check_replies(facts):
     return not msgs, msgs, broken
 
 
+# ---- fact F7: stored byte slices are never rewritten in place (harness/sites_alias.go -> Generated/AliasSites.lean -> Props/C01Alias.lean)
+_WRITE_KINDS = ("index-assign", "copy", "append", "append-reslice", "append-call", "fill")
+
+
+def alias_lists(facts):
+    """(write sites, install sites) as rows (file, function, kind, normalised text, class) - no line numbers"""
+    rows = facts.get("alias_sites") or []
+    row = lambda a: (a["file"], a["func"], a["kind"], a["text"], a["class"])
+    return (sorted(row(a) for a in rows if a["kind"] in _WRITE_KINDS), sorted(row(a) for a in rows if a["kind"] not in _WRITE_KINDS))
+
+
+def write_alias_sites(facts):
+    writes, installs = alias_lists(facts)
+    q = lambda r: "⟨%s, %s, %s, %s, .%s⟩" % (_lstr(r[0]), _lstr(r[1]), _lstr(r[2]), _lstr(r[3]), r[4])
+    src = ("/-! GENERATED on every check run from /repo/memdb/*.go by the harness `facts` engine (harness/sites_alias.go) — do not edit.\n"
+           "Fact F7: every in-place write to a byte slice and every byte slice installed in the keyspace, with the provenance class of the slice\n"
+           "(fresh: allocated in the function / by a callee that only returns fresh slices; param: a parameter or part of one — in an executor the\n"
+           "command words, each in the parser's own buffer; stored: read from a map / field / package variable / stored value; unknown). -/\n"
+           "namespace Generated\n\n"
+           "inductive AliasCls where\n  | fresh | param | stored | unknown\n  deriving DecidableEq, Repr\n\n"
+           "structure AliasSite where\n  file : String\n  fn : String\n  kind : String\n  text : String\n  cls : AliasCls\n  deriving DecidableEq, Repr\n\n"
+           "/-- `x[i] = …`, `x[i] op= …`, `copy(x…, …)`, `append(x…, …)`, `strconv.Append*(x…, …)`, `Read/Put*(x…)` on a `[]byte` x: the class is that of the\n"
+           "    slice whose array is written -/\n"
+           "def aliasWriteSites : List AliasSite := " + _llist([q(r) for r in writes]) + "\n\n"
+           "/-- a `[]byte` assigned to a map element / field / package variable, or passed to a function of the repository (outside resp): the class is\n"
+           "    that of the slice handed over -/\n"
+           "def aliasInstallSites : List AliasSite := " + _llist([q(r) for r in installs]) + "\n\nend Generated\n")
+    old = open(GEN_ALIAS).read() if os.path.exists(GEN_ALIAS) else None
+    if old != src:
+        os.makedirs(os.path.dirname(GEN_ALIAS), exist_ok=True)
+        open(GEN_ALIAS, "w").write(src)
+
+
+def _expected_alias(name):
+    try:
+        src = open(ALIAS_PROP).read()
+    except OSError:
+        return None
+    m = re.search(r"def %s\b[^\n]*:= \[\n(.*?)\]\n" % name, src, re.S)
+    if not m:
+        return None
+    un = lambda x: x.replace('\\"', '"').replace("\\\\", "\\")
+    S = r'"((?:[^"\\]|\\.)*)"'
+    return [tuple(un(g) for g in t[:4]) + (t[4],) for t in re.findall(r'^\s*⟨%s, %s, %s, %s, \.(\w+)⟩' % (S, S, S, S), m.group(1), re.M)]
+
+
+def check_alias(facts):
+    """what Lean will say about Generated/AliasSites.lean, with the offending sites named: (ok, [messages], structured)"""
+    msgs, broken = [], dict(new=[], gone=[])
+    if facts.get("alias_sites") is None:
+        return False, ["alias-site extraction failed: %s" % facts.get("sites_error", "no alias_sites in the extractor's output")], broken
+    writes, installs = alias_lists(facts)
+    byrow = collections.defaultdict(list)
+    for a in facts["alias_sites"]:
+        byrow[(a["file"], a["func"], a["kind"], a["text"], a["class"])].append(a)
+    for rows, name, okcls, thm, what in (
+            (writes, "reviewed", ("fresh",), "AliasSites.no_inplace_write_to_stored / inventory",
+             "writes INTO a byte slice that is not a fresh local (class %s: it is or may alias a stored value; a reply that still refers to those bytes is encoded after the lock is released)"),
+            (installs, "reviewedInstalls", ("fresh", "param"), "AliasSites.installed_values_own_their_bytes / install_inventory",
+             "hands on a byte slice that is neither freshly allocated nor the command's own argument (class %s: two stored values sharing one array make the reviewed in-place append of APPEND write through one key into the other)")):
+        exp = _expected_alias(name)
+        if exp is None:
+            continue
+        have = collections.Counter(r for r in rows if r[4] not in okcls)
+        want = collections.Counter(exp)
+        for row, n in sorted((have - want).items()):
+            sites = byrow.get(row, [])
+            broken["new"].append(dict(file=row[0], func=row[1], kind=row[2], text=row[3], cls=row[4], lines=[x["line"] for x in sites]))
+            msgs.append("%s %s (line %s): `%s` %s%s — not in the reviewed inventory (%s)" % (
+                row[0], row[1], "/".join(str(x["line"]) for x in sites), row[3], what % row[4],
+                ("; " + sites[0]["evidence"]) if sites and sites[0].get("evidence") else "", thm))
+        for row, n in sorted((want - have).items()):
+            broken["gone"].append(dict(file=row[0], func=row[1], kind=row[2], text=row[3], cls=row[4]))
+            msgs.append("%s %s: reviewed site `%s` (%s) is no longer in the source (%s; remove it from %s)" % (row[0], row[1], row[3], row[4], thm, name))
+    return not msgs, msgs, broken
+
+
 def skeleton_rows(facts):
     """fact F2 keyed by command name: (command, executor, tokens)"""
     sk = facts.get("skeletons") or {}
@@ -276,6 +355,7 @@ def regenerate(R):
     write_sites(facts)
     write_skeletons(facts)
     write_reply_sites(facts)
+    write_alias_sites(facts)
     exp = json.load(open(EXPECT)) if os.path.exists(EXPECT) else {}
     diffs = {}
     sk, esk = facts.get("skeletons", {}), exp.get("skeletons", {})
@@ -316,8 +396,23 @@ def regenerate(R):
             R.facts_broken.append(("F6", msgs))
             diffs["F6"] = msgs
             R.replies_broken = broken
+    if R.prop in USERS["F7"]:
+        good, msgs, broken = check_alias(facts)
+        writes, installs = alias_lists(facts)
+        R.oblige("fact F7: stored byte slices are never rewritten in place: of the %d in-place writes to byte slices in memdb (index assignment, copy, append, "
+                 "strconv.Append*) %d go to a slice allocated in the function, the others equal the reviewed inventory; of the %d byte slices handed to the "
+                 "keyspace %d are fresh allocations or the command's own arguments, the others equal a reviewed list (regenerated into Generated/AliasSites.lean; "
+                 "closed in Lean by Props/C01Alias)" % (len(writes), sum(1 for r in writes if r[4] == "fresh"), len(installs),
+                                                        sum(1 for r in installs if r[4] in ("fresh", "param"))), "facts", good, "; ".join(msgs)[:900])
+        R.extra["alias_sites"] = dict(writes=len(writes), installs=len(installs),
+                                      by_kind_class=dict(collections.Counter(r[2] + "/" + r[4] for r in writes + installs)))
+        if not good:
+            ok = False
+            R.facts_broken.append(("F7", msgs))
+            diffs["F7"] = msgs
+            R.alias_broken = broken
     for fid, props in USERS.items():
-        if R.prop not in props or fid in ("F1", "F3", "F6"):
+        if R.prop not in props or fid in ("F1", "F3", "F6", "F7"):
             continue
         good = fid not in diffs
         what = {"F2": "CheckTTL / lock-call skeleton of every registered executor equals the recorded one (%d executors; also closed in Lean: "
